@@ -87,6 +87,7 @@ class CacheDriver:
         self.next_out = "val"
         self.objs = {}
         self.nest = self.inner = None
+        self.slow = 0
         drv = self
         kw = dict(limit=limit, expiration=float(expn) if expn else None)
         if limit == 1 and not expn:
@@ -100,6 +101,11 @@ class CacheDriver:
             # (the receiver is remembered by slot and generation, not by reference: a discarded one has to be collectable)
             drv.invs.append((None if recv is None else (recv.idx, recv.gen), args, kwargs))
             n = len(drv.invs)
+            if drv.slow:
+                # a slow computation: the clock moves on while the function runs
+                dt, drv.slow = drv.slow, 0
+                drv.now += dt
+                drv.loop.advance(T0 + drv.now)
             if drv.nest is not None:
                 # re-entrancy: this invocation calls the same cached function (same receiver) with other arguments
                 # before it returns
@@ -183,6 +189,14 @@ class CacheDriver:
             res = self._invoke(r, key)
             self.last = dict(inv=res["inv"], fresh=res["fresh"], out=res["out"], at=self.now, drain=())
             return self.last
+        if name == "CallSlow":
+            r, key, dt = args
+            self.next_out = "val"
+            self.slow = dt
+            res = self._invoke(r, key)
+            self.slow = 0
+            self.last = dict(inv=res["inv"], fresh=res["fresh"], out=res["out"], at=self.now, drain=())
+            return self.last
         if name == "CallNested":
             r, key, key2 = args
             self.next_out = "val"
@@ -244,6 +258,10 @@ def gen_trace(rnd, length):
                 k = rnd.randint(1, nkeys)
                 args = [r, k, rnd.choice([x for x in range(1, nkeys + 1) if x != k])]
                 name = "CallNested"
+            elif form.startswith("sync") and rnd.random() < 0.15:
+                r = rnd.choice([1, 2, 3]) if form.endswith("method") else 0
+                args = [r, rnd.randint(1, nkeys), rnd.choice([1, 2, 3])]
+                name = "CallSlow"
             else:
                 r = rnd.choice([1, 2, 3]) if form.endswith("method") else 0
                 args = [r, rnd.randint(1, nkeys), "exc" if rnd.random() < 0.15 else "val"]
@@ -293,16 +311,16 @@ def groups(tier):
             ("deep", dict(NKeys=3, NRecv=1, Forms=["sync_fn"], Limits=[2], Expirations=[2], MaxT=6, MaxOps=7, Outs=["val"], Steps=[3], MaxRenew=0, Nested=False, Bug="none"),
              dict(NKeys=3, NRecv=1, Forms=["sync_fn", "async_fn"], Limits=[2], Expirations=[2], MaxT=6, MaxOps=6, Outs=["val"], Steps=[3], MaxRenew=0, Nested=False, Bug="none")),
             # re-entrancy: the function body calls the same cached function (memoised recursion), synchronous forms
-            ("nested", dict(NKeys=3, NRecv=1, Forms=["sync_fn", "sync_method"], Limits=[1, 2], Expirations=[0, 2], MaxT=2, MaxOps=4, Outs=["val"], Steps=[1], MaxRenew=0, Nested=True, Bug="none"),
-             dict(NKeys=3, NRecv=1, Forms=["sync_fn", "sync_method"], Limits=[1, 2], Expirations=[0, 2], MaxT=2, MaxOps=3, Outs=["val"], Steps=[1], MaxRenew=0, Nested=True, Bug="none")),
+            ("nested", dict(NKeys=3, NRecv=1, Forms=["sync_fn", "sync_method"], Limits=[1, 2], Expirations=[0, 2], MaxT=3, MaxOps=4, Outs=["val"], Steps=[1, 2], MaxRenew=0, Nested=True, Bug="none"),
+             dict(NKeys=3, NRecv=1, Forms=["sync_fn", "sync_method"], Limits=[1, 2], Expirations=[0, 2], MaxT=3, MaxOps=3, Outs=["val"], Steps=[1, 2], MaxRenew=0, Nested=True, Bug="none")),
         ]
     return [
         ("fn", dict(NKeys=3, NRecv=1, Forms=FN, Limits=[1, 2, 3], Expirations=[0, 2, 3], MaxT=4, MaxOps=6, Outs=["val", "exc"], Steps=[1], MaxRenew=1, Nested=False, Bug="none"),
          dict(NKeys=4, NRecv=1, Forms=FN, Limits=[1, 2, 3], Expirations=[0, 2], MaxT=3, MaxOps=4, Outs=["val", "exc"], Steps=[1], MaxRenew=1, Nested=False, Bug="none")),
         ("method", dict(NKeys=2, NRecv=2, Forms=METH, Limits=[1, 2, 3], Expirations=[0, 2, 3], MaxT=4, MaxOps=6, Outs=["val", "exc"], Steps=[1], MaxRenew=1, Nested=False, Bug="none"),
          dict(NKeys=2, NRecv=2, Forms=METH, Limits=[1, 2, 3], Expirations=[0, 2], MaxT=3, MaxOps=4, Outs=["val", "exc"], Steps=[1], MaxRenew=1, Nested=False, Bug="none")),
-        ("nested", dict(NKeys=3, NRecv=1, Forms=["sync_fn", "sync_method"], Limits=[1, 2], Expirations=[0, 2], MaxT=3, MaxOps=5, Outs=["val"], Steps=[1], MaxRenew=0, Nested=True, Bug="none"),
-         dict(NKeys=3, NRecv=1, Forms=["sync_fn", "sync_method"], Limits=[1, 2], Expirations=[0, 2], MaxT=3, MaxOps=4, Outs=["val"], Steps=[1], MaxRenew=0, Nested=True, Bug="none")),
+        ("nested", dict(NKeys=3, NRecv=1, Forms=["sync_fn", "sync_method"], Limits=[1, 2], Expirations=[0, 2], MaxT=4, MaxOps=5, Outs=["val"], Steps=[1, 2], MaxRenew=0, Nested=True, Bug="none"),
+         dict(NKeys=3, NRecv=1, Forms=["sync_fn", "sync_method"], Limits=[1, 2], Expirations=[0, 2], MaxT=4, MaxOps=4, Outs=["val"], Steps=[1, 2], MaxRenew=0, Nested=True, Bug="none")),
     ]
 
 
@@ -311,7 +329,7 @@ def run(rep, work, tier, seed):
     rep.extra["constants"] = {g[0]: dict(model=g[1], conformance=g[2]) for g in gs}
     for name, mc, conf in gs:
         leg_m(rep, work, SPEC, f"mc_{name}_{tier}", cfg_text(mc, spec="Spec", invariants=INVS, properties=["Complete"]),
-              expect_actions=["Call", "Advance", "Drain"] + (["Renew"] if name == "method" else []) + (["CallNested"] if name == "nested" else []), timeout=3000)
+              expect_actions=["Call", "Advance", "Drain"] + (["Renew"] if name == "method" else []) + (["CallNested", "CallSlow"] if name == "nested" else []), timeout=3000)
     if tier == "thorough":
         small = dict(NKeys=3, NRecv=1, Forms=["sync_fn"], Limits=[1, 2], Expirations=[0, 2], MaxT=4, MaxOps=5,
                      Outs=["val", "exc"], Steps=[1], MaxRenew=0, Nested=False)
@@ -338,7 +356,7 @@ def run(rep, work, tier, seed):
               constants=dict(NKeys=7, NRecv=3, Forms='{"sync_fn", "sync_method", "async_fn", "async_method"}', Limits="1..4",
                              Expirations="{0, 2, 3, 5}", MaxT=100000, MaxOps=100000, Outs='{"val", "exc"}',
                              Steps="1..3", MaxRenew=100000, Nested="TRUE", Bug='"none"'),
-              config_vars=["form", "limit", "expn"], actions=dict(Call=3, CallNested=3, Advance=1, Renew=1, Drain=0),
+              config_vars=["form", "limit", "expn"], actions=dict(Call=3, CallNested=3, CallSlow=3, Advance=1, Renew=1, Drain=0),
               invariants=["Capacity", "NoDuplicateKeys", "Sound"])
     rep.assumptions += [
         "key alphabet f(-1), f(-1.0), f(), f(-2), f(x=-1), f(True), f(1) (==-equal but differently typed, positional vs keyword, "
